@@ -500,7 +500,8 @@ Fixpoint node_update (date : option nat) (inow : nat) (n : node) {struct n} : re
   | NStrat g kids lz paper =>
     '(newpt, g, kids, (val, notl, bop)) <- strat_update_with (node_update date inow) date inow g kids ;;
     g <- strat_write_value newpt inow val notl bop g ;;
-    let kids := set_kid_weights (g_fi g) val notl kids in
+    (* children are weighed against the node's recorded value / notional *)
+    let kids := set_kid_weights (g_fi g) (g_value g) (g_notl g) kids in
     '(g, paper) <- strat_finish date inow newpt g kids paper ;;
     Ok (NStrat g kids lz paper)
   end.
@@ -531,15 +532,15 @@ Definition root_update (date : option nat) (tr : tree) : result tree :=
         (* first c.value read -> self.root.update(self.root.now) *)
         '(_, g, kids, (val2, notl2, bop2)) <- strat_update_with (node_update date inow) date inow g kids ;;
         g <- strat_write_value false inow val2 notl2 bop2 g ;;
-        let kids := set_kid_weights false val2 notl2 kids in
+        let kids := set_kid_weights false (g_value g) (g_notl g) kids in
         '(g, paper) <- strat_finish date inow false g kids paper ;;
-        (* back in the outer call, with its own locals *)
-        let kids := set_kid_weights false val notl kids in
+        (* back in the outer call: the weights loop reads the recorded (refreshed) value *)
+        let kids := set_kid_weights false (g_value g) (g_notl g) kids in
         '(g, paper) <- strat_finish date inow newpt g kids paper ;;
         Ok (NStrat g kids lz paper, false)
     else
       g <- strat_write_value newpt inow val notl bop g ;;
-      let kids := set_kid_weights (g_fi g) val notl kids in
+      let kids := set_kid_weights (g_fi g) (g_value g) (g_notl g) kids in
       '(g, paper) <- strat_finish date inow newpt g kids paper ;;
       Ok (NStrat g kids lz paper, false)
   end.
